@@ -92,7 +92,9 @@ def run_op(h, op, ctx):
         return None
     if k == 'copy':
         # copy(name): writes a second archive next to this one; this one must not change
-        loc = archmc_location(ctx['backend'], ctx['root'], 'copied')
+        # (a second copy goes to a second name: dir_archive.copy onto an existing directory raises, which is not C13's subject)
+        n = ctx['ncopy'] = ctx.get('ncopy', 0) + 1
+        loc = archmc_location(ctx['backend'], ctx['root'], 'copied' if n == 1 else 'copied%d' % n)
         h.copy(loc)
         return None
     if k == 'dump':
